@@ -19,7 +19,7 @@ NA = {
 }
 
 PENDING = {
-    'C07': 'filestore', 'C13': 'playback',
+    'C07': 'filestore',
     'C16': 'history', 'C17': 'charset',
 }
 
@@ -48,6 +48,10 @@ CHECKS = {
                 technique='deterministic network simulation: in-process TCP-like byte pipes under a virtual clock with complete per-workload sweep of the disconnect offset (FIN/RST at every byte), scripted segmentation and delays, raw and real peers',
                 text='mido.sockets runs unmodified on a simulated network (socket, makefile, select and time are simulator stubs; order-preserving byte pipes with scheduled deliveries). Scenario 1: for each sampled message sequence (all types, real-time bytes inside sysex) the peer is cut at EVERY byte offset 0..L - FIN, or RST in a separately judged configuration - with the bytes before the cut segmented and delayed; the port is consumed by a for-loop, receive(), a poll loop or an iter_pending loop and must yield exactly the messages whose last byte arrived, in order, then end without an exception and report closed, never blocking past the deadline. Scenario 2: connect() <-> PortServer.accept(), traffic both ways, one side calls close(): the peer must reach end-of-stream, receive everything sent before, and report closed. Scenario 3: a PortServer with 1-3 raw clients connecting (also with data in flight before the accept), sending in segments and disconnecting (also mid-message) while the server polls, iterates and blocks: every completely arrived message exactly once, per-client order, no non-blocking call waits or hangs, blocking receive returns within a few poll intervals of an arrival. Every endpoint address is also checked for parse/format inversion. The cut sweep is complete per sampled workload; workloads are sampled.',
                 note='The network stub preserves order and loses nothing (what TCP gives an application); its close semantics (_io_refs rule, fileno, EPIPE) were pinned to a real socketpair. After RST only a prefix of the completely arrived messages is required.'),
+    'C13': dict(engine='playback', category='exploration', design='3 / C13',
+                technique='deterministic simulation of playback on a virtual clock: generated files x consumer delay schedules x clock faults (oversleep, coarse clock, forward/backward jumps); oracle = independent stable merge and exact rational tempo-map integral',
+                text='Each run builds a file (type 0/1, type 2 for the refusal clause; ticks_per_beat 1..32767; 1-4 tracks; set_tempo at any position incl. tempo 0, 1, 16777215 and at ties with other tracks; deltas up to 268435455), then (a) iterates it and reads length: messages must equal the independent stable merge, cumulative times the exact tempo-map integral (Fractions), length the last cumulative time, type 2 must refuse; (b) plays it with play(now=simulated clock) while time.sleep is the simulated clock, the consumer spending a planned virtual time on each message (none / constant / bursts longer than the gap / ending exactly at the next scheduled time / abandoning the generator) under clock faults. Checked at every yield: same messages as iteration (metas only on request), never before the scheduled time on the supplied clock, every sleep request positive and equal to scheduled time minus clock reading, and - with an exact clock - yield time == max(request time, start + scheduled time), i.e. no accumulated drift. tick2second/second2tick inversion is monitored on the triples that occur.',
+                note="Float results are compared to the exact rational model with relative tolerance 1e-9; under a coarse supplied clock 'never early' allows one clock quantum. play()'s default now=time.time binding is not exercised (the documented now= parameter is)."),
 }
 
 
